@@ -247,7 +247,13 @@ CHROM_SETS = [
     ["1", "2", "10", "X"],
     ["chr1", "chr2", "chr10", "chrX"],
     ["1", "2", "10", "X", "MT", "GL000192.1"],
+    # long lists: ranks 10 and up (two-digit ranks must still compare as numbers)
+    [str(i) for i in range(1, 23)] + ["X", "Y", "MT"],
+    ["chr%d" % i for i in range(1, 23)] + ["chrX", "chrY", "chrM"],
+    ["c%02d" % i for i in range(30, 0, -1)],
 ]
+LONG = [str(i) for i in range(1, 23)] + ["X", "Y", "MT"]
+CHR_LONG = ["chr%d" % i for i in range(1, 23)] + ["chrX", "chrY", "chrM"]
 POSITIONS = [0, 1, 2, 9, 10, 11, 99, 100, 1000]      # 0: falsy; invalid (missing) under a typed one-based column
 TUMORS = ["T1", "T2", "T10", "TCGA-A", ""]      # "": falsy text (typed: rejected -> missing)
 NORMALS = ["N1", "N2", "N10", ""]                # "": typed nullable -> None
